@@ -22,7 +22,7 @@ def run(tier):
     count = 40 if thorough else 5
     files = vlib.parallel(lambda i: vlib.run_to_file([exe, "rec", str(vlib.SEED * 16 + i + 1), str(count)], os.path.join(w, "eul%02d.ndjson" % i)), range(16))
     # (seed 16k+... with it == 0 in shard 0 also records every signed axis-permutation matrix x every order: exact gimbal lock)
-    chk.traces("EulerTrace", files, what="24 orders x angle triples over several periods x float/double, middle angle at and within 10^-k of gimbal lock: toMatrix33/44/toQuat vs the definitional product of elementary rotations; extraction and conversion back; re-ordering; makeNear family; extractEuler*; angleMod", episodes=1, timeout=7200)
+    chk.traces("EulerTrace", files, what="24 orders x angle triples over several periods x float/double, middle angle at and within 10^-k of gimbal lock: toMatrix33/44/toQuat vs the definitional product of elementary rotations; extraction and conversion back; re-ordering; makeNear family (targets in the same and in other orders); extractEuler*; angleMod", episodes=1, timeout=7200)
     chk.sample_lines(tf, idx=(1, 13), maxlen=500)
     chk.sample_lines(files[0], idx=(1, 2), maxlen=700)
     chk.assumptions += ["libm is trusted for sin/cos (logged facts constrained by sin^2+cos^2 = 1)",
